@@ -231,10 +231,11 @@ func (s *fsm12) finish(ctx context.Context, c Conn) (State, error) {
 	select {
 	case state := <-c.RecvHandshake():
 		close(state.Done)
-		// The side that sent the last flight of the handshake answers a peer
-		// retransmission by re-sending it: the server after a full handshake
-		// (Flight 6), the client after an abbreviated one (Flight 5b).
-		if s.state.IsClient && !s.currentFlight.IsLastSendFlight() {
+		// Only the side that sent the last flight of the handshake answers a
+		// peer retransmission by re-sending it: the server after a full
+		// handshake (Flight 6), the client after an abbreviated one (Flight 5b).
+		// If both sides answered, each re-sent flight would trigger the other.
+		if !s.currentFlight.IsLastSendFlight() {
 			return StateFinished, nil
 		}
 
